@@ -2,14 +2,18 @@
 
 A session is a list of cells, a cell a list of instruction tokens (the alphabet of lean/Driver/C22.lean: storage /
 parameter / code declarations, PUSH, SOME, NONE, UNIT, EMPTY_BIG_MAP, UPDATE, GET, MEM, GET_AND_UPDATE, DUP, DROP, SWAP,
-PAIR, CAR, CDR, NIL, ADD, FAILWITH, BEGIN, COMMIT, RUN, DROP_ALL, BIG_MAP_DIFF).  Failures are injected at every
-instruction position (FAIL, an ill-typed ADD / CAR, stack underflow, a parse error) and also arise naturally.
+PAIR, CAR, CDR, NIL, ADD, FAILWITH, DROP n, DIG n, DUG n, DUP n, DIP { … } / DIP n { … } (nested, `dip{ … }` tokens),
+AMOUNT, BALANCE, NOW, SENDER, SOURCE, PATCH <field> [value], BEGIN, COMMIT, RUN, DROP_ALL, BIG_MAP_DIFF).  Failures are
+injected at every instruction position — positions INSIDE DIP bodies included, so the machine stack has a protected
+prefix when the cell breaks — (FAIL, an ill-typed ADD / CAR, stack underflow, a parse error) and also arise naturally
+(DIG / DUG / DUP n / DROP n are aimed at exactly the stack depth and one beyond).
 
 Every session is run on a real `Interpreter` (cells as Michelson text through `Interpreter.execute`), a second time
-with the cells that failed removed (metamorphic), and on the Lean mirror.  Observed after every cell: `error` or not,
-the lazy diffs and results of COMMIT / RUN / BIG_MAP_DIFF, the stack (every big map with its id, local items,
-removed keys and — following the reference — the counters and registered maps of the context it points at) and the
-interpreter's own context (declared types, code, counters, registered maps).
+with the cells that failed removed (metamorphic), and on the Lean mirror.  Observed after every cell: `error` or not
+(and the `protected` counter the live stack object had when the cell raised), the lazy diffs and results of COMMIT /
+RUN / BIG_MAP_DIFF, the stack (every big map with its id, local items, removed keys and — following the reference — the
+counters and registered maps of the context it points at), `stack.protected`, and the interpreter's own context
+(declared types, code, counters, registered maps, the patched amount / balance / now / sender / source / chain_id).
 
 Property oracle (independent of the mirror): (1) after a failing cell the observation equals the one before it;
 (2) the surviving cells of the session give, cell by cell, the same results and observations as in the session without
@@ -29,7 +33,18 @@ BASIC = {
     'mem': 'MEM', 'gau': 'GET_AND_UPDATE', 'dup': 'DUP', 'drop': 'DROP', 'swap': 'SWAP', 'pair': 'PAIR', 'car': 'CAR',
     'cdr': 'CDR', 'nil': 'NIL operation', 'add': 'ADD', 'failwith': 'FAILWITH',
 }
+BASIC.update({'amount': 'AMOUNT', 'balance': 'BALANCE', 'now': 'NOW', 'sender': 'SENDER', 'source': 'SOURCE'})
 BASIC_OF_PRIM = {v.split()[0]: k for k, v in BASIC.items()}
+DEEP = {'dropn': 'DROP', 'dig': 'DIG', 'dug': 'DUG', 'dupn': 'DUP'}
+DEEP_OF_PRIM = {v: k for k, v in DEEP.items()}
+FIELDS = ('AMOUNT', 'BALANCE', 'CHAIN_ID', 'SENDER', 'SOURCE', 'NOW')
+# string tokens of PATCH: aK = a well-formed address, xK = another non-empty string (never an address / a timestamp), e = ""
+STRINGS = {
+    'a0': 'KT1BEqzn5Wx8uJrZNvuS9DVHmLvG9td3fDLi', 'a1': 'tz1VSUr8wwNhLAzempoch5d6hLRiTh8Cjcjb', 'a2': 'tz1burnburnburnburnburnburnburjAYjjX',
+    'x0': 'not-an-address-0', 'x1': 'NetXdQprcVkpaWU', 'x2': 'tomorrow', 'e': '',
+}
+TOKEN_OF_STRING = {v: k for k, v in STRINGS.items()}
+DUMMY_KEY_HASH = 'tz1Ke2h7sDdakHJQh8WX4Z372du1KChsksyU'      # base58(b'\x00' * 20, b'tz1'): what SENDER / SOURCE push when unset
 
 
 # ---------------------------------------------------------------- tokens -> Michelson text
@@ -71,7 +86,15 @@ def instr_text(tok):
     if head in ('storage', 'parameter'):
         return f'{head} {TYPES[rest]}'
     if head == 'code':
-        return 'code { ' + ' ; '.join(instr_text(b) for b in rest.split(',') if b) + ' }'
+        return 'code { ' + prog_text([b for b in rest.split(',') if b]) + ' }'
+    if head in DEEP:
+        return f'{DEEP[head]} {rest}'
+    if head == 'patch':
+        f, _, v = rest.partition(':')
+        assert f in FIELDS
+        if not v:
+            return f'PATCH {f}'
+        return f'PATCH {f} ' + (v[1:] if v[0] == 'i' else '"%s"' % STRINGS[v])
     if head in ('begin', 'run'):
         p, s = split_lits(rest)
         return f'{head.upper()} {lit_text(p)} {lit_text(s)}'
@@ -88,10 +111,42 @@ def split_lits(rest):
     raise ValueError(rest)
 
 
+def is_open(tok):
+    return tok.startswith('dip') and tok.endswith('{')
+
+
+def match_brace(toks, i):
+    """index of the `}` closing the `dip…{` at i"""
+    depth = 0
+    for j in range(i, len(toks)):
+        depth += is_open(toks[j])
+        depth -= toks[j] == '}'
+        if depth == 0:
+            return j
+    raise ValueError(toks)
+
+
+def prog_text(toks):
+    """tokens (with `dip{` / `dip:N{` … `}`) -> Michelson"""
+    out, i = [], 0
+    while i < len(toks):
+        t = toks[i]
+        if is_open(t):
+            j = match_brace(toks, i)
+            n = t[4:-1] if t.startswith('dip:') else ''
+            out.append(f"DIP {n + ' ' if n else ''}{{ {prog_text(toks[i + 1:j])} }}")
+            i = j + 1
+        else:
+            assert t != '}'
+            out.append(instr_text(t))
+            i += 1
+    return ' ; '.join(out)
+
+
 def cell_text(cell):
     if cell == ['parseerror']:
         return 'PUSH nat 1 ; )'
-    return ' ; '.join(instr_text(t) for t in cell)
+    return prog_text(cell)
 
 
 # ---------------------------------------------------------------- rendering of the real objects (= Driver/C22.lean)
@@ -110,12 +165,31 @@ def show_type(expr):
     return p
 
 
-def show_code(expr):
+def code_tokens(seq):
     out = []
-    for ins in expr['args'][0]:
-        p = ins['prim']
-        out.append(f"push:{ins['args'][1]['int']}" if p == 'PUSH' else BASIC_OF_PRIM[p])
-    return ','.join(out)
+    for ins in seq:
+        p, a = ins['prim'], ins.get('args', [])
+        if p == 'PUSH':
+            out.append(f"push:{a[1]['int']}")
+        elif p == 'DIP':
+            out += ['dip{' if len(a) == 1 else f"dip:{a[0]['int']}{{"] + code_tokens(a[-1]) + ['}']
+        elif p in DEEP_OF_PRIM and a:
+            out.append(f"{DEEP_OF_PRIM[p]}:{a[0]['int']}")
+        else:
+            out.append(BASIC_OF_PRIM[p])
+    return out
+
+
+def show_code(expr):
+    return ','.join(code_tokens(expr['args'][0]))
+
+
+def show_opt(v):
+    if v is None:
+        return '-'
+    if isinstance(v, str):
+        return TOKEN_OF_STRING.get(v, '?' + v)
+    return str(v)
 
 
 def show_big(c):
@@ -127,7 +201,8 @@ def show_ctx(c):
     st = show_type(c.storage_expr) if c.storage_expr else '-'
     pt = show_type(c.parameter_expr) if c.parameter_expr else '-'
     code = show_code(c.code_expr) if c.code_expr else '-'
-    return f'ctx(st={st};pt={pt};code={code};{show_big(c)})'
+    env = f'am={show_opt(c.amount)};ba={show_opt(c.balance)};now={show_opt(c.now)};se={show_opt(c.sender)};so={show_opt(c.source)};ch={show_opt(c.chain_id)}'
+    return f'ctx(st={st};pt={pt};code={code};{show_big(c)};{env})'
 
 
 def show_val(v, look):
@@ -136,6 +211,12 @@ def show_val(v, look):
         return 'Unit'
     if p == 'nat':
         return str(int(v))
+    if p == 'mutez':
+        return f'mutez:{int(v)}'
+    if p == 'timestamp':
+        return f'ts:{int(v)}'
+    if p == 'address':
+        return 'addr:' + ('dummy' if v.value == DUMMY_KEY_HASH else TOKEN_OF_STRING.get(v.value, '?' + v.value))
     if p == 'bool':
         return 'True' if bool(v) else 'False'
     if p == 'option':
@@ -167,6 +248,8 @@ def walk_outs(x, acc):
     if isinstance(its, list):
         for it in its:
             walk_outs(it, acc)
+    if getattr(x, 'item', None) is not None:             # the executed body of a DIP
+        walk_outs(x.item, acc)
     return acc
 
 
@@ -179,7 +262,10 @@ def show_outs(result):
 
 
 def show_state(interp):
-    return f"stack {' '.join(show_val(v, True) for v in interp.stack.items)} ; {show_ctx(interp.context)}"
+    return f"stack {' '.join(show_val(v, True) for v in interp.stack.items)} ; prot={interp.stack.protected} ; {show_ctx(interp.context)}"
+
+
+INIT_STATE = 'stack  ; prot=0 ; ctx(st=-;pt=-;code=-;0/0/;am=-;ba=-;now=-;se=-;so=-;ch=-)'
 
 
 _PARSE_CACHE = {}
@@ -209,35 +295,118 @@ def _install_parse_cache():
     repl.michelson_to_micheline = cached
 
 
-def run_impl(session):
-    """[(failed, 'F ; state' | 'ok outs ; state')] per cell"""
+def new_interpreter():
     from pytezos.michelson.repl import Interpreter
     _install_parse_cache()
-    interp = Interpreter()
-    out = []
-    for cell in session:
-        r = interp.execute(cell_text(cell))
-        head = 'F' if r.error is not None else f'ok {show_outs(r)}'
-        out.append((r.error is not None, f'{head} ; {show_state(interp)}'))
-    return out
+    return Interpreter()
+
+
+def run_cell(interp, cell):
+    """(failed, 'F@<protected of the live stack object when the cell raised> ; state' | 'ok outs ; state')"""
+    live = interp.stack
+    r = interp.execute(cell_text(cell))
+    head = f'F@{live.protected}' if r.error is not None else f'ok {show_outs(r)}'
+    return r.error is not None, f'{head} ; {show_state(interp)}'
+
+
+def run_impl(session):
+    """[(failed, line)] per cell"""
+    interp = new_interpreter()
+    return [run_cell(interp, cell) for cell in session]
 
 
 # ---------------------------------------------------------------- generation
 KEYS = (1, 2, 3)
 CODES = ['cdr,nil,pair', 'cdr,push:5,some,push:1,update,nil,pair', 'cdr,dup,push:1,mem,drop,none,push:2,update,nil,pair',
-         'car,nil,pair', 'drop,ebm,push:7,some,push:3,update,nil,pair', 'cdr,unit,failwith', 'cdr,nil,pair,dup']
+         'car,nil,pair', 'drop,ebm,push:7,some,push:3,update,nil,pair', 'cdr,unit,failwith', 'cdr,nil,pair,dup',
+         'cdr,dip{,unit,drop,},nil,pair', 'cdr,nil,dip{,push:4,some,push:2,update,},pair', 'cdr,nil,pair,dip{,unit,failwith,}',
+         'cdr,push:1,dip:2{,unit,dip{,failwith,},},nil,pair', 'cdr,nil,swap,dug:1,pair', 'cdr,amount,drop,nil,dig:1,dupn:2,drop,swap,pair',
+         'cdr,nil,pair,dig:1']
 STORAGE_LITS = {
     'unit': ['U'], 'nat': ['i0', 'i7'], 'bm': ['s', 's1=10', 's1=10,3=30', 'i5', 'i0', 's2=1,1=1'],
     'pbn': ['P(s;i1)', 'P(s2=20;i0)', 'P(i5;i2)'], 'pbb': ['P(s;s)', 'P(i5;s1=2)', 'P(s1=1;i6)', 'P(i5;i5)'], 'onat': ['U'],
 }
 PARAM_LITS = {'unit': ['U'], 'nat': ['i1', 'i3']}
+PATCH_VALUES = {
+    'AMOUNT': ['i5', 'i0', 'i70', 'i-3', 'i9223372036854775807', 'i9223372036854775808', 'x0', 'e'],
+    'BALANCE': ['i100', 'i0', 'i-1', 'i9223372036854775808', 'a0'],
+    'NOW': ['i7', 'i0', 'i-5', 'i1700000000', 'x2', 'e'],
+    'SENDER': ['a0', 'a1', 'a2', 'x0', 'e', 'i5'],
+    'SOURCE': ['a1', 'a0', 'x1', 'e', 'i0'],
+    'CHAIN_ID': ['x1', 'x0', 'e', 'i1'],
+}
+READERS = ['amount', 'balance', 'now', 'sender', 'source']
 
 
-def gen_cell(rng, st):
-    """one cell (list of tokens); `st` = the generator's own guess of the declared types (only steers the choice)"""
-    r = rng.random()
+def gen_stackops(rng, n, depth=2):
+    """n stack instructions; `depth` (reachable items) keeps most of them applicable, type errors stay possible"""
+    out = []
+    for _ in range(n):
+        v = rng.randrange(1, 50)
+        pool = [f'push:{v}', f'push:{v}', 'unit', 'none', 'nil', 'ebm']
+        if depth >= 1 or rng.random() < 0.15:
+            pool += ['dup', 'dup', 'drop', 'some', 'car', 'cdr']
+        if depth >= 2 or rng.random() < 0.15:
+            pool += ['swap', 'swap', 'pair', 'pair', 'add']
+        t = rng.choice(pool)
+        out.append(t)
+        depth += {'drop': -1, 'pair': -1, 'add': -1, 'some': 0, 'car': 0, 'cdr': 0, 'swap': 0}.get(t, 1)
+    return out
+
+
+def gen_deep(rng, depth):
+    """DIG / DUG / DUP n / DROP n aimed at the number of reachable items: exactly at it, one beyond, inside"""
+    op = rng.choice(['dig', 'dig', 'dug', 'dupn', 'dupn', 'dropn'])
+    # the largest argument that still works: DIG / DUG n need n + 1 items, DUP n and DROP n need n
+    edge = depth if op in ('dupn', 'dropn') else depth - 1
+    d = edge + rng.choice([0, 0, 0, 1, 1, 1, 2, -1, -1, -2, rng.randrange(-4, 3)])   # +1: DIG / DUP n raise between protect and restore
+    return [f'{op}:{max(1 if op == "dupn" else 0, d)}']
+
+
+def gen_patch(rng):
+    f = rng.choice(FIELDS)
+    if rng.random() < 0.15:
+        return [f'patch:{f}']
+    return [f'patch:{f}:{rng.choice(PATCH_VALUES[f])}']
+
+
+def gen_dip(rng, depth, level=0):
+    """a DIP around a body; the count is aimed at the reachable depth as well"""
+    n = rng.choice([1, 1, 1, 0, 2, depth, depth, depth + 1, max(0, depth - 1), rng.randrange(0, depth + 1)])
+    head = 'dip{' if n == 1 and rng.random() < 0.7 else f'dip:{n}{{'
+    inner = max(0, depth - n)
+    body = []
+    for _ in range(rng.randrange(0, 4)):
+        r = rng.random()
+        if r < 0.22 and level < 2:
+            body += gen_dip(rng, inner, level + 1)
+        elif r < 0.37:
+            body += gen_deep(rng, inner)
+        elif r < 0.44:
+            body += rng.choice([['dropall'], ['bmd'], gen_patch(rng), [rng.choice(READERS)], ['commit'], ['begin:U:s1=1']])
+        else:
+            ops = gen_stackops(rng, 1, inner)
+            inner = max(0, inner + {'drop': -1, 'pair': -1, 'add': -1, 'some': 0, 'car': 0, 'cdr': 0, 'swap': 0}.get(ops[0], 1))
+            body += ops
+    return [head] + body + ['}']
+
+
+def gen_cell(rng, st, depth=0, view=None):
+    """one cell (list of tokens); `st` = the generator's own guess of the declared types (only steers the choice),
+    `depth` = number of items on the real stack before the cell, `view` = what else the live interpreter shows (is the
+    top a big map, are types / code declared): a cell whose precondition is visibly unmet is redrawn 4 times out of 5"""
+    view = view or {}
+    for _ in range(6):
+        r = rng.random()
+        unmet = ((0.08 <= r < 0.17 and not view.get('types', True)) or (0.17 <= r < 0.23 and not view.get('code', True))
+                 or (0.31 <= r < 0.47 and not view.get('top_bm', True)) or (0.47 <= r < 0.54 and depth != 1))
+        if not unmet or rng.random() < 0.2:
+            break
     k, v = rng.choice(KEYS), rng.randrange(1, 50)
-    if r < 0.10:
+    if depth == 1 and rng.random() < 0.12:               # one item left: try to close the BEGIN … COMMIT bracket
+        return rng.choice([['nil', 'pair', 'commit'], ['nil', 'pair', 'dip:0{', 'commit', '}'], ['dup', 'bmd', 'drop', 'nil', 'pair', 'commit'],
+                           [f'push:{v}', 'some', f'push:{k}', 'update', 'nil', 'pair', 'commit']])
+    if r < 0.08:
         t = rng.choice(['bm', 'bm', 'pbn', 'pbb', 'nat', 'unit'])
         p = rng.choice(['unit', 'unit', 'nat'])
         kind = rng.randrange(5)
@@ -255,60 +424,94 @@ def gen_cell(rng, st):
             return [f'storage:{t}']
         st['s'], st['p'] = t, p
         return [f'parameter:{p}', f'storage:{t}', 'code:' + rng.choice(CODES)]
-    if r < 0.22:
+    if r < 0.17:
         s_t = st['s'] if rng.random() < 0.85 else rng.choice(list(STORAGE_LITS))
         p_t = st['p'] if rng.random() < 0.9 else rng.choice(list(PARAM_LITS))
         cell = [f"begin:{rng.choice(PARAM_LITS[p_t])}:{rng.choice(STORAGE_LITS[s_t])}"]
         if rng.random() < 0.6:
             cell.append('cdr')
         return cell
-    if r < 0.30:
+    if r < 0.23:
         s_t = st['s'] if rng.random() < 0.85 else rng.choice(list(STORAGE_LITS))
         return [f"run:{rng.choice(PARAM_LITS[st['p']])}:{rng.choice(STORAGE_LITS[s_t])}"]
-    if r < 0.42:
+    if r < 0.31:
         return rng.choice([['ebm'], ['ebm', f'push:{v}', 'some', f'push:{k}', 'update'], ['drop', 'ebm']])
-    if r < 0.58:
+    if r < 0.42:
         return rng.choice([[f'push:{v}', 'some', f'push:{k}', 'update'], ['none', f'push:{k}', 'update'],
                            [f'push:{v}', 'some', f'push:{k}', 'gau', 'drop'], ['none', f'push:{k}', 'gau']])
-    if r < 0.66:
+    if r < 0.47:
         return rng.choice([['dup', f'push:{k}', 'get'], ['dup', f'push:{k}', 'mem'], ['dup', f'push:{k}', 'get', 'drop']])
-    if r < 0.76:
+    if r < 0.54:
         return rng.choice([['nil', 'pair'], ['nil', 'pair', 'commit'], ['commit'], ['cdr', 'nil', 'pair', 'commit'],
                            ['push:0', 'swap', 'pair', 'nil', 'pair', 'commit'], ['dup', 'pair', 'nil', 'pair', 'commit']])
-    if r < 0.84:
+    if r < 0.59:
         return rng.choice([['bmd'], ['dup', 'bmd'], ['dropall'], ['dup', 'bmd', 'drop']])
-    n = rng.randrange(1, 4)
-    return [rng.choice(['dup', 'drop', 'swap', 'pair', 'car', 'cdr', 'nil', 'add', f'push:{v}', 'some', 'none', 'unit'])
-            for _ in range(n)]
+    if r < 0.71:                                         # DIP / DIP n / nested, possibly with something before and after
+        pre = gen_stackops(rng, rng.randrange(0, 2), depth)
+        return pre + gen_dip(rng, depth + sum(t.startswith('push') or t in ('unit', 'none', 'nil', 'ebm', 'dup') for t in pre)) \
+            + gen_stackops(rng, rng.randrange(0, 2), depth)
+    if r < 0.81:                                         # DIG / DUG / DUP n / DROP n at the edge of the stack
+        return gen_deep(rng, depth) + (gen_stackops(rng, 1, depth) if rng.random() < 0.3 else [])
+    if r < 0.89:                                         # the execution environment
+        cell = gen_patch(rng)
+        if rng.random() < 0.5:
+            cell += rng.choice([[rng.choice(READERS)], gen_patch(rng), ['dip{', 'unit', 'failwith', '}'], ['unit', 'failwith'],
+                                ['dropn:99'], [rng.choice(READERS), rng.choice(READERS)]])
+        return cell
+    if r < 0.93:
+        return [rng.choice(READERS) for _ in range(rng.randrange(1, 3))] + (['add'] if rng.random() < 0.3 else [])
+    return gen_stackops(rng, rng.randrange(1, 4), depth)
 
 
 FAIL_SUFFIX = [['unit', 'failwith'], ['unit', 'unit', 'add'], ['unit', 'car'], ['drop'] * 7, ['dropall', 'drop'], ['bmd', 'unit', 'failwith'],
-               ['ebm', 'bmd', 'unit', 'failwith'], ['begin:U:i7', 'unit', 'failwith']]
+               ['ebm', 'bmd', 'unit', 'failwith'], ['begin:U:i7', 'unit', 'failwith'], ['dip{', 'unit', 'failwith', '}'],
+               ['unit', 'dip:1{', 'dip:0{', 'push:1', 'failwith', '}', '}'], ['dropn:99'], ['dig:99'], ['dupn:99'],
+               ['patch:AMOUNT:i77', 'unit', 'failwith'], ['patch:SENDER:a2', 'patch:NOW:i9', 'dip:0{', 'unit', 'failwith', '}']]
 
 
 def inject_failure(rng, cell):
-    if rng.random() < 0.12:
+    if rng.random() < 0.1:
         return ['parseerror']
-    k = rng.randrange(0, len(cell) + 1)                  # the instruction position at which the cell breaks
+    k = rng.randrange(0, len(cell) + 1)                  # the instruction position at which the cell breaks (any nesting depth)
     if any(t.startswith('code:') for t in cell[:k]) and k == 1:
         k = 0                                            # a lone `code {…}` is executed, not declared
-    return cell[:k] + rng.choice(FAIL_SUFFIX)
+    head = cell[:k]
+    open_ = sum(is_open(t) for t in head) - head.count('}')
+    return head + rng.choice(FAIL_SUFFIX) + ['}'] * open_
 
 
-def gen_session(rng, max_cells):
+def droppable(cell):
+    return not cell or (len(cell) == 1 and cell[0].startswith('code:'))
+
+
+def gen_and_run_session(rng, max_cells):
+    """(session, [(failed, line)]): the session is generated cell by cell against a live interpreter, so that the
+    deep-stack instructions can be aimed at the real stack depth; what it prints is the implementation's trace"""
+    interp = new_interpreter()
     st = {'s': 'bm', 'p': 'unit'}
     n = rng.randrange(2, max_cells + 1)
-    cells = []
-    if rng.random() < 0.7:                               # productive skeleton first
+    p_fail = rng.choice([0.0, 0.15, 0.3, 0.5])
+    session, full = [], []
+    skeleton = []
+    if rng.random() < 0.6:                               # productive skeleton first
         t = rng.choice(['bm', 'bm', 'pbn', 'pbb'])
         st['s'] = t
-        cells.append([f'storage:{t}', 'parameter:unit'] + (['code:' + rng.choice(CODES)] if rng.random() < 0.4 else []))
-        cells.append([f"begin:U:{rng.choice(STORAGE_LITS[t])}", 'cdr'])
-    while len(cells) < n:
-        cells.append(gen_cell(rng, st))
-    p_fail = rng.choice([0.0, 0.15, 0.3, 0.5])
-    cells = [inject_failure(rng, c) if rng.random() < p_fail else c for c in cells]
-    return [c for c in cells if c and not (len(c) == 1 and c[0].startswith('code:'))]
+        skeleton.append([f'storage:{t}', 'parameter:unit'] + (['code:' + rng.choice(CODES)] if rng.random() < 0.4 else []))
+        skeleton.append([f"begin:U:{rng.choice(STORAGE_LITS[t])}", 'cdr'])
+    elif rng.random() < 0.5:                             # or a few plain items to dig into
+        skeleton.append([f'push:{rng.randrange(1, 9)}' for _ in range(rng.randrange(1, 4))])
+    while len(session) < n:
+        items, c = interp.stack.items, interp.context
+        view = {'top_bm': bool(items) and items[0].prim == 'big_map', 'types': bool(c.storage_expr and c.parameter_expr), 'code': bool(c.code_expr)}
+        cell = skeleton.pop(0) if skeleton else gen_cell(rng, st, len(items), view)
+        if rng.random() < p_fail:
+            cell = inject_failure(rng, cell)
+        if droppable(cell):
+            n -= 1
+            continue
+        session.append(cell)
+        full.append(run_cell(interp, cell))
+    return session, full
 
 
 REGRESSIONS = [
@@ -320,6 +523,20 @@ REGRESSIONS = [
     [['ebm'], ['parseerror'], ['dup', 'bmd'], ['ebm'], ['bmd']],
     # a failing BEGIN registers an on-chain map in the discarded context
     [['storage:bm', 'parameter:unit'], ['begin:U:s'], ['cdr'], ['begin:U:i5', 'unit', 'failwith'], ['nil', 'pair', 'commit']],
+    # a cell that fails inside a DIP body / between protect and restore of DIG, DUP n: no protected prefix may survive
+    [['push:1', 'push:2'], ['dip{', 'unit', 'failwith', '}'], ['push:3']],
+    [['push:1', 'push:2'], ['dig:2'], ['push:3']],
+    [['push:1', 'push:2'], ['dupn:3'], ['push:3'], ['drop']],
+    [['push:1', 'push:2', 'push:3'], ['dip:2{', 'push:4', 'dip{', 'drop', 'unit', 'unit', 'add', '}', '}'], ['dug:2'], ['dropn:3']],
+    [['storage:bm', 'parameter:unit'], ['begin:U:s'], ['cdr', 'push:7'], ['dip{', 'push:1', 'some', 'push:2', 'update', 'unit', 'failwith', '}'],
+     ['drop', 'nil', 'pair', 'commit']],
+    [['storage:bm', 'parameter:unit', 'code:cdr,nil,pair,dip{,unit,failwith,}'], ['push:1'], ['run:U:s'], ['push:2'], ['run:U:s1=1']],
+    # the patched environment is part of the context that is rolled back
+    [['patch:AMOUNT:i5'], ['patch:AMOUNT:i9', 'unit', 'failwith'], ['amount']],
+    [['patch:NOW:i7', 'patch:SENDER:a0'], ['patch:NOW', 'patch:SENDER:a1', 'patch:BALANCE:i3', 'dip:0{', 'dropn:1', '}'], ['now', 'sender', 'balance']],
+    # exotic but legal: Jupyter instructions under a DIP
+    [['push:1', 'push:2'], ['dip{', 'dropall', '}'], ['push:3', 'dip{', 'begin:U:s', '}'], ['storage:bm', 'parameter:unit'],
+     ['push:4', 'dip{', 'begin:U:s', '}'], ['dip{', 'run:U:s', '}'], ['dip:0{', 'nil', 'pair', 'commit', '}']],
 ]
 
 
@@ -335,14 +552,29 @@ def shrink(session, still_fails):
                 cur, changed = cand, True
             else:
                 i += 1
-        for i in range(len(cur)):                         # drop single instructions
+        for i in range(len(cur)):                         # drop single instructions, whole DIP blocks, or only the DIP around a body
             j = 0
             while j < len(cur[i]) and len(cur[i]) > 1:
-                cand = [list(c) for c in cur]
-                del cand[i][j]
-                if not (len(cand[i]) == 1 and cand[i][0].startswith('code:')) and still_fails(cand):
-                    cur, changed = cand, True
-                else:
+                tok = cur[i][j]
+                if tok == '}':
+                    j += 1
+                    continue
+                cuts = [(j, j)]
+                if is_open(tok):
+                    m = match_brace(cur[i], j)
+                    cuts = [(j, m), None]                  # None: unwrap
+                done = False
+                for cut in cuts:
+                    cand = [list(c) for c in cur]
+                    if cut is None:
+                        del cand[i][m]
+                        del cand[i][j]
+                    else:
+                        del cand[i][cut[0]:cut[1] + 1]
+                    if cand[i] and not droppable(cand[i]) and still_fails(cand):
+                        cur, changed, done = cand, True, True
+                        break
+                if not done:
                     j += 1
     return cur
 
@@ -350,7 +582,7 @@ def shrink(session, still_fails):
 def oracle(session, full=None):
     """None, or (what, detail): the two statements of the property on the real interpreter"""
     full = full or run_impl(session)
-    prev = 'stack  ; ctx(st=-;pt=-;code=-;0/0/)'
+    prev = INIT_STATE
     for i, (failed, line) in enumerate(full):
         state = line.split(' ; ', 1)[1]
         if failed and state != prev:
@@ -369,9 +601,9 @@ def oracle(session, full=None):
 
 
 # ---------------------------------------------------------------- raw-text sessions (property oracle only, outside the model)
-# The Lean session model covers the alphabet above with an unprotected stack.  The property itself quantifies over
-# every cell, so a second stream runs free-form Michelson cells — failures *inside* DIP / DIP n bodies (a protected
-# stack prefix is live when the cell breaks), DIG / DUG / DUP n / DROP n at and beyond the stack depth, PATCH of the
+# The Lean session model covers the alphabet above (protected prefixes and the patched environment included).  The
+# property itself quantifies over every cell, so a second stream runs free-form Michelson cells — failures inside DIP
+# bodies under IF / LOOP / ITER / LAMBDA, DIG / DUG / DUP n / DROP n at and beyond the stack depth, PATCH of the
 # execution environment followed by a failure, plain maps / lists / strings on the stack — through the real
 # Interpreter only and judges them with the two statements of the property (metamorphic: the session without its
 # failing cells).  Observations use the public API only: the Micheline rendering of every stack slot and what
@@ -497,41 +729,52 @@ def run(ctx):
     max_cells = 8 if quick else 20
     n = 1500 if quick else 12000
     ctx.extra['rule'] = (
-        'random sessions of 2-%d cells over the cell alphabet (70%% start with declarations + BEGIN), failing suffixes '
-        '(FAIL, ill-typed ADD/CAR, underflow, BIG_MAP_DIFF;FAIL, EMPTY_BIG_MAP;BIG_MAP_DIFF;FAIL, BEGIN;FAIL, parse error) '
-        'injected at a random instruction position of a cell with probability 0/0.15/0.3/0.5 per session, natural failures '
-        'kept; every session run on a real Interpreter, again without its failing cells, and on the model; non-trivial = at '
-        'least one failing cell followed by a successful cell with a big map on the stack or a COMMIT/RUN/BIG_MAP_DIFF' % max_cells)
+        'random sessions of 2-%d cells over the cell alphabet (60%% start with declarations + BEGIN), generated cell by cell '
+        'against a live interpreter so that DIG / DUG / DUP n / DROP n and DIP n are aimed at the real stack depth (exactly at it, '
+        'one beyond, inside); 12%% of the cells are DIP / DIP n / nested DIP around stack, deep-stack, Jupyter and PATCH '
+        'instructions, 10%% deep-stack instructions, 8%% PATCH (then readers / a failure); failing suffixes (FAIL, ill-typed '
+        'ADD/CAR, underflow, BIG_MAP_DIFF;FAIL, EMPTY_BIG_MAP;BIG_MAP_DIFF;FAIL, BEGIN;FAIL, DIP {FAIL}, nested DIP FAIL, '
+        'DROP/DIG/DUP 99, PATCH;FAIL, parse error) injected at a random instruction position of a cell — inside DIP bodies '
+        'too — with probability 0/0.15/0.3/0.5 per session, natural failures kept; every session run on a real '
+        'Interpreter, again without its failing cells, and on the model; non-trivial = at least one failing cell followed by a '
+        'successful cell that shows a stack item or a COMMIT/RUN/BIG_MAP_DIFF' % max_cells)
     ctx.assumptions += [
-        'big_map nat nat only, no DIP (stack.protected = 0), no shell attached (reads of registered on-chain maps raise)',
-        'UPDATE with a payload that is not option nat is outside the model (never generated)',
+        'big_map nat nat only, no shell attached (reads of registered on-chain maps raise), no key (dummy key hash), nothing spends (balance_update = 0)',
+        'UPDATE with a payload that is not option nat is outside the model (never generated); DUP 0 (reads items[-1]) is not in the alphabet',
+        'PATCH strings are tokens: a table of well-formed addresses, other non-empty strings that are neither addresses nor timestamps, the empty string',
         'michelson_to_micheline is memoised by the harness (pure function of the cell text)',
-        'raw-text stream (failures inside DIP / DIP n bodies, DIG/DUG/DUP/DROP n at the stack depth, PATCH then fail, maps, lists, lambdas, loops): '
-        'outside the Lean session model; judged on the real Interpreter by the property oracle only (no theorem covers a protected prefix at failure time)',
-        'observation of a stacked big map reads its public attributes ptr / items / removed_keys / context',
+        'raw-text stream (maps, lists, lambdas, loops, IF around DIP, DUMP, …): outside the Lean session model; judged on the real Interpreter by the '
+        'property oracle only',
+        'observation of a stacked big map reads its public attributes ptr / items / removed_keys / context; of the stack: items / protected',
     ]
-    sessions = [[list(c) for c in s] for s in REGRESSIONS]
+    runs = [([list(c) for c in s], None) for s in REGRESSIONS]
     for _ in range(n):
-        sessions.append(gen_session(ctx.rng, max_cells if ctx.rng.random() < 0.7 else 5))
-    sessions = [s for s in sessions if s]
-    model = ctx.model([' | '.join(' '.join(c) for c in s) for s in sessions])
+        runs.append(gen_and_run_session(ctx.rng, max_cells if ctx.rng.random() < 0.7 else 5))
+    runs = [(s, full or run_impl(s)) for s, full in runs if s]
+    model = ctx.model([' | '.join(' '.join(c) for c in s) for s, _ in runs])
     shrunk = 0
-    for i, s in enumerate(sessions):
-        full = run_impl(s)
+    for i, (s, full) in enumerate(runs):
         fails = [f for f, _ in full]
         after_fail = False
         interesting = False
         for f, line in full:
             if f:
                 after_fail = True
-            elif after_fail and ('BM[' in line or 'COMMIT[' in line or 'RUN[' in line or 'BIG_MAP_DIFF[' in line):
+            elif after_fail and (not line.split(' ; ')[1] == 'stack ' or 'COMMIT[' in line or 'RUN[' in line or 'BIG_MAP_DIFF[' in line):
                 interesting = True
         ctx.case({'cells': session_text(s)}, nontrivial=interesting)
         ctx.count('cells', len(s))
         ctx.count('failing_cells', min(sum(fails), 6))
-        for c, f in zip(s, fails):
+        for c, (f, line) in zip(s, full):
             if f:
-                ctx.count('failed_at', 'parse' if c == ['parseerror'] else 'instr')
+                prot = int(line.split(' ; ')[0][2:])
+                ctx.count('failed_at', 'parse' if c == ['parseerror'] else
+                          ('with a protected prefix (inside DIP / DIG / DUP n)' if prot else 'top-level instruction' if not any(map(is_open, c))
+                           else 'cell with DIP, nothing protected'))
+                if any(t.startswith('patch:') for t in c):
+                    ctx.count('failed_after_patch', True)
+            ctx.count('cell_kind', 'dip' if any(map(is_open, c)) else 'deep-stack' if any(t.split(':')[0] in DEEP for t in c)
+                      else 'patch/env' if any(t.startswith('patch:') or t in READERS for t in c) else 'other')
         ctx.count('has_commit_or_run_output', any('COMMIT[' in l or 'RUN[' in l for _, l in full))
         bad = oracle(s, full)
         if bad is not None:
@@ -540,7 +783,7 @@ def run(ctx):
                 small = shrink(s, lambda cand: oracle(cand) is not None)
                 what, detail = oracle(small)
                 key = ' | '.join(session_text(small))
-                ctx.violation(key, f'{what}: {detail}', {'cells': session_text(small), 'what': what, 'detail': detail,
+                ctx.violation(key, f'{what}: {detail}', {'cells': session_text(small), 'tokens': small, 'what': what, 'detail': detail,
                                                           'from': session_text(s)})
             else:
                 ctx.violation('unshrunk: ' + ' | '.join(session_text(s))[:300], f'{bad[0]}: {bad[1]}',
